@@ -176,19 +176,23 @@ CHECKS = {
         "timeout": {"quick": 1200, "thorough": 14000},
     },
     "C11": {
-        "scenarios": [("C11-auth", "vsim")],
+        "scenarios": [("C11-auth", "vsim"), ("C11-cli", "vreal")],
+        "extra_builds": ["mieru"],
         "rule": "all 781 method lists of length 0..4 over {0x00,0x01,0x02,0x80,0xFF} (exhaustive in one quick pass) plus random lists of "
                 "length 5/17/255, x credential configuration {none, one, three} x placement {client-side, server-side} x supplied "
                 "pair {matching, wrong user, wrong password, empty, swapped, 255-byte, cross pair of two entries, wrong sub-negotiation "
                 "version, truncated at a random byte}; the hostile client always goes on to send its request whatever the server "
                 "answered; a transcript counts as served when the proxy dialer was reached (client side) or the request was answered "
-                "(server side); distinct = slice of the enumeration",
+                "(server side); plus the real client program (cmd/mieru built from the tree, `mieru run` with a configuration file "
+                "holding 0/1/3 credentials) negotiated with over loopback, its proxy server being the server library in the harness "
+                "process, which records the forwarded request of every negotiation by a unique destination port; "
+                "distinct = slice of the enumeration",
         "technique": "runtime monitor: 'request served implies a configured pair was verified under method 0x02' oracle over enumerated "
                      "negotiation transcripts against the real socks5 server on in-memory connections",
         "text": "Exhaustive over short method lists, sampled over pair variants; the oracle also requires that legitimate clients are served.",
         "note": "trusted: in-memory stream connections, the fake proxy dialer / reject-all egress rule used to observe 'served'",
         "design_ref": "DESIGN.md section 4, C11",
-        "min_obs": {"transcripts": 5000, "served": 500},
+        "min_obs": {"transcripts": 5000, "served": 500, "cli_transcripts": 100},
     },
     "C12": {
         "scenarios": [("C12-decide", "vsim"), ("C12-e2e", "vreal")],
